@@ -563,6 +563,12 @@ func c13lock(c *Ctx) {
 				progs[t] = append(progs[t], op{'S', 0})
 			} else {
 				progs[t] = append(progs[t], op{'W', 1 + g.Draw(40)})
+				// an empty payload is a call like any other: it is passed on under
+				// the same exclusion
+				if g.Chance(5) {
+					progs[t][len(progs[t])-1].n = 0
+					c.R.Probe("an empty payload through Lock")
+				}
 			}
 		}
 	}
@@ -584,7 +590,9 @@ func c13lock(c *Ctx) {
 			for i, o := range progs[t] {
 				if o.kind == 'W' {
 					p := bytes.Repeat([]byte{byte('a' + t)}, o.n)
-					p[0] = byte('0' + i)
+					if o.n > 0 {
+						p[0] = byte('0' + i)
+					}
 					n, err := paths[(t+i)%len(paths)].Write(p)
 					results[t] = append(results[t], c13res{'W', n, err})
 				} else {
